@@ -253,6 +253,19 @@ def is_begin_of(t, aux):
     return isinstance(t, tuple) and t[0] == 'q' and t[1] in ('begin', 'cbegin') and t[2] == THIS(aux)
 
 
+def head_copied_before(s, dl, aux):
+    """`const auto oldest = m_ttl_list.front();` ahead of the pop: the key position is read from the copy, the node may go first (a
+    reference instead of a copy reads the freed node - C08 R-ITER-TS)"""
+    i = s.effects.index(dl)
+    for e in s.effects[:i]:
+        if e.kind == 'LOCAL' and getattr(e, 'how', '') == 'decl' and isinstance(e.val, tuple):
+            v = e.val[2] if is_ld(e.val) else e.val
+            if isinstance(v, tuple) and v[:1] == ('deref',) and isinstance(v[1], tuple) and v[1][:2] in (('q', 'begin'), ('q', 'cbegin')) \
+                    and len(v[1]) > 2 and v[1][2] == THIS(aux):
+                return True
+    return False
+
+
 def check_purge_shape(res, prop, cm, roles, m, top):
     """ut_*: the purge walks the ttl list from its head, removes a node's key iff now >= its deadline (inclusive), stops at the
     first live node, and erases exactly the visited prefix"""
@@ -278,7 +291,7 @@ def check_purge_shape(res, prop, cm, roles, m, top):
                             and isinstance(ex[0][1][0], lift.Ent) and ex[0][1][0].kind == 'FRONT'):
                         ok, why = False, 'purge removes the head without the inclusive test now >= deadline(head) on a non-empty list'
                     elif not (len(unb) == 1 and unb[0].ent.kind == 'VIA' and unb[0].ent.arg[0] == 'FRONT' and len(dels) == 1
-                              and s.effects.index(unb[0]) < s.effects.index(dels[0])):
+                              and (s.effects.index(unb[0]) < s.effects.index(dels[0]) or head_copied_before(s, dels[0], aux))):
                         ok, why = False, 'purge iteration does not remove exactly the head node and its key (key first)'
                 else:
                     if not ((ex and ex[0][0] == 'EXPIRED' and ex[0][2] is False) or (ne is False and not ex)):
